@@ -628,6 +628,49 @@ func runC15(c *Check) {
 				c.Bad("C15-R4", "InitChain ⟂ initialised→stored-root", fnName(initc), p.Pos(initc.Pos()), "on an initialised chain InitChain returns "+badRet+" instead of the root stored at genesis: called again after blocks were executed (a restart before the first state write) it reports the current root as the genesis root", nil)
 			}
 		}
+		// R8: the marker says "the genesis state is complete". It reaches the disk together with
+		// what it vouches for (one batch, one commit), or after it: a marker written first, by a
+		// write of its own, survives a crash that the genesis root does not — every later start
+		// finds the chain "initialised" and fails to read its root.
+		{
+			markers := map[string]bool{}
+			for _, pn := range puts {
+				pn := pn
+				for _, f := range g.NecessaryEdges(func(n *Node) bool { return n == pn }) {
+					if k := absent(f); k != "" && written[k] {
+						markers[k] = true
+					}
+				}
+			}
+			isBatchPut := func(n *Node) bool {
+				r := RecvTerm(n)
+				return r != nil && r.Op == "extract" && r.Args[0].Op == "invoke" && strings.HasSuffix(r.Args[0].Name, ".Batch")
+			}
+			var markerPuts, otherPuts []*Node
+			allBatched := true
+			for _, pn := range puts {
+				if !isBatchPut(pn) {
+					allBatched = false
+				}
+				if markers[keyName(ArgTerm(pn, 1))] {
+					markerPuts = append(markerPuts, pn)
+				} else {
+					otherPuts = append(otherPuts, pn)
+				}
+			}
+			commits := g.Select(func(n *Node) bool { return dsCall(n, "Commit") })
+			inst := "InitChain ⟂ marker durable with or after what it vouches for"
+			switch {
+			case len(markerPuts) == 0 || len(otherPuts) == 0:
+				c.OK("C15-R8", inst, fnName(initc), p.Pos(initc.Pos()), "InitChain writes a single genesis record", false)
+			case allBatched && len(commits) == 1:
+				c.OK("C15-R8", inst, fnName(initc), p.InstrPos(commits[0].In), "marker and genesis state are staged in one batch and committed once", true)
+			default:
+				c.Decide("C15-R8", inst, fnName(initc), p.InstrPos(markerPuts[0].In), "no genesis record is written after the marker",
+					"the initialisation marker is written by a write of its own before another genesis record: a crash between the two leaves the chain marked initialised without its genesis root, and every later start fails in InitChain (\"initialized but failed to retrieve state root\") — the node can never be started again", g,
+					g.PathAvoiding(markerPuts, nodeSet(otherPuts), nil))
+			}
+		}
 		if okAll {
 			c.OK("C15-R4", "InitChain ⟂ idempotent", fnName(initc), p.InstrPos(puts[0].In), "genesis keys are written only when a marker key that InitChain itself writes is absent", true)
 		} else if len(puts) > 0 {
@@ -638,6 +681,8 @@ func runC15(c *Check) {
 	c.MinInstances("C15-R2", 5)
 	c.MinInstances("C15-R3", 4)
 	c.MinInstances("C15-R4", 2)
+	c.Doc("C15-R8", "EO: the initialisation marker of InitChain and the genesis records it vouches for are staged in one batch committed once, or the marker is written after them: never a marker on disk without the genesis root.")
+	c.MinInstances("C15-R8", 1)
 	c.MinInstances("C15-R5", 1)
 	ruleFinalisationRepeatable(c, "C15-R6")
 	ruleReexecutionAccepted(c, "C15-R7")
